@@ -24,7 +24,7 @@ def street(burn, hole, board, draw, opening, minbet, cap):
 def cfg(n, streets, structure, antes, blinds, bringin, stacks, types, deckcards, autos, tournament=True, trim=True, boards0=1, werr=True):
     return {'n': n, 'streets': streets, 'structure': structure, 'trim': trim, 'antes': list(antes), 'blinds': list(blinds), 'bringin': bringin,
             'stacks0': list(stacks), 'tournament': tournament, 'boards0': boards0, 'types': list(types), 'autos': list(autos),
-            'rake': {'num': 0, 'den': 1, 'cap': -1, 'nfnd': False}, 'werr': werr, 'shufA': 1, 'shufB': 0, 'typesPerPot': True,
+            'rake': {'num': 0, 'den': 1, 'cap': -1, 'nfnd': False}, 'werr': werr, 'shufA': 1, 'shufB': 0, 'typesPerPot': True, 'exact': False,
             'deckcards': sorted(deckcards)}
 
 
